@@ -33,7 +33,8 @@ No(m)  == [m |-> m, ok |-> FALSE]
 NewFile == [pr |-> {}, rules |-> <<Allow>>, pinit |-> FALSE]   \* pinit: the principals table has been allocated
 NewRoot(p) == [pr |-> {p}, root |-> [ids |-> {p}, thr |-> 1], tgt |-> [on |-> FALSE, ids |-> {}, thr |-> 0],
                globals |-> <<>>, hooks |-> [pre |-> <<>>, push |-> <<>>], hinit |-> FALSE,
-               multi |-> [ctl |-> FALSE, cr |-> <<>>, nr |-> <<>>]]     \* controller flag, controller / network repositories
+               multi |-> [ctl |-> FALSE, cr |-> <<>>, nr |-> <<>>],     \* controller flag, controller / network repositories
+               pd |-> <<>>]                                           \* propagation directives [name, spec]
 
 (***************************************************************************)
 (* Rule file edits                                                         *)
@@ -123,6 +124,16 @@ ApplyR(r, e, Dev) ==
       [] e.op = "RemoveHook" ->
            IF ~r.hinit THEN No(r) ELSE
            Ok([r EXCEPT !.hooks = [s \in {"pre", "push"} |-> IF HasName(e.stages, s) THEN SelectSeq(r.hooks[s], LAMBDA n : n # e.name) ELSE r.hooks[s]]])
+      \* propagation directives: duplicates are judged by what a directive says (spec), updates and deletions go by name
+      [] e.op = "AddPropagationDirective" ->
+           IF \E i \in DOMAIN r.pd : r.pd[i].spec = e.spec THEN No(r) ELSE Ok([r EXCEPT !.pd = Append(@, [name |-> e.name, spec |-> e.spec])])
+      [] e.op = "UpdatePropagationDirective" ->
+           IF ~\E i \in DOMAIN r.pd : r.pd[i].name = e.name THEN No(r)
+           ELSE Ok([r EXCEPT !.pd = [i \in DOMAIN r.pd |-> IF r.pd[i].name = e.name THEN [name |-> e.name, spec |-> e.spec] ELSE r.pd[i]]])
+      [] e.op = "DeletePropagationDirective" ->
+           IF ~\E i \in DOMAIN r.pd : r.pd[i].name = e.name THEN No(r)
+           ELSE LET k == CHOOSE i \in DOMAIN r.pd : r.pd[i].name = e.name /\ \A j \in DOMAIN r.pd : r.pd[j].name = e.name => i <= j
+                IN Ok([r EXCEPT !.pd = SubSeq(@, 1, k - 1) \o SubSeq(@, k + 1, Len(@))])
       [] e.op = "EnableController"  -> Ok([r EXCEPT !.multi.ctl = TRUE])
       [] e.op = "DisableController" -> Ok([r EXCEPT !.multi.ctl = FALSE])
       [] e.op = "AddControllerRepository" ->
@@ -143,7 +154,7 @@ ViewF(f) == [pr |-> f.pr, rules |-> f.rules]
 \* what a query can observe of a root (hinit is allocation state, not observable)
 \* (the network repositories of a root that is not a controller are kept but not shown)
 ViewR(r) == [pr |-> r.pr, root |-> r.root, tgt |-> r.tgt, globals |-> r.globals, hooks |-> r.hooks,
-             multi |-> [r.multi EXCEPT !.nr = IF r.multi.ctl THEN @ ELSE <<>>]]
+             multi |-> [r.multi EXCEPT !.nr = IF r.multi.ctl THEN @ ELSE <<>>], pd |-> r.pd]
 
 \* replay of a recorded edit sequence: sequence of [m, ok] after each edit
 RECURSIVE RunF(_, _, _, _)
